@@ -2,6 +2,7 @@
 package main
 
 import (
+	"strconv"
 	"context"
 	"encoding/json"
 	"fmt"
@@ -33,7 +34,72 @@ func ctxFn2(ctx context.Context, r *http.Request) context.Context {
 	return context.WithValue(ctx, k2{}, "f2("+v+")|hdr="+r.Header.Get(hdr))
 }
 
-func both(ctx context.Context, r *http.Request) context.Context { return ctxFn2(ctxFn1(ctx, r), r) }
+type k3 struct{}
+
+// extraFn is context function number i (3, 4, ...): each appends to a chain value, so the registration order of all of
+// them and the request each one ran for are visible in one string.
+func extraFn(i int) func(ctx context.Context, r *http.Request) context.Context {
+	return func(ctx context.Context, r *http.Request) context.Context {
+		prev, _ := ctx.Value(k3{}).(string)
+		return context.WithValue(ctx, k3{}, fmt.Sprintf("%s>%d:%s", prev, i, r.Header.Get(hdr)))
+	}
+}
+
+func wantTok2(tok string, F int) string {
+	if F < 2 {
+		return ""
+	}
+	return "f2(" + tok + ")|hdr=" + tok
+}
+
+func wantChain(tok string, F int) string {
+	s := ""
+	for i := 3; i <= F; i++ {
+		s += fmt.Sprintf(">%d:%s", i, tok)
+	}
+	return s
+}
+
+// barrier: requests that carry X-Verif-Barrier "<name>/<n>" meet inside the FIRST context function (all n of them, or
+// whoever arrived within 2 s), so that the context-function stage of n requests of different clients overlaps.
+var barriers sync.Map // name -> *barrierState
+
+type barrierState struct {
+	mu      sync.Mutex
+	arrived int
+	ch      chan struct{}
+}
+
+var barrierMet atomic.Int64
+
+func meet(r *http.Request) {
+	v := r.Header.Get("X-Verif-Barrier")
+	i := strings.LastIndex(v, "/")
+	if i < 0 {
+		return
+	}
+	n, _ := strconv.Atoi(v[i+1:])
+	x, _ := barriers.LoadOrStore(v, &barrierState{ch: make(chan struct{})})
+	b := x.(*barrierState)
+	b.mu.Lock()
+	b.arrived++
+	if b.arrived == n {
+		close(b.ch)
+		barrierMet.Add(1)
+	}
+	b.mu.Unlock()
+	select {
+	case <-b.ch:
+	case <-time.After(2 * time.Second):
+	}
+}
+
+func ctxFn1B(ctx context.Context, r *http.Request) context.Context {
+	meet(r)
+	return ctxFn1(ctx, r)
+}
+
+func both(ctx context.Context, r *http.Request) context.Context { return ctxFn2(ctxFn1B(ctx, r), r) }
 
 func tokOf(ctx context.Context) string { v, _ := ctx.Value(k1{}).(string); return v }
 
@@ -62,6 +128,7 @@ func allowed(name, prefix, tok string, K int) bool {
 type echo struct {
 	Tok1     string `json:"tok1"`
 	Tok2     string `json:"tok2"`
+	Chain    string `json:"chain"`
 	Sess     string `json:"sess"`
 	CSess    string `json:"csess"`
 	Server   string `json:"server"`
@@ -76,15 +143,17 @@ type mwObs struct {
 	ReqID string
 	Tok   string
 	Tok2  string
+	Chain string
 	Sess  string
 	CSess string
 }
 
-func build(kind kit.Kind, K int, mw *[]mwObs, mwMu *sync.Mutex) *kit.Instance {
+func build(kind kit.Kind, K, F int, mw *[]mwObs, mwMu *sync.Mutex) *kit.Instance {
 	middleware := func(next mcp.HandlerFunc) mcp.HandlerFunc {
 		return func(ctx context.Context, req *mcp.JSONRPCRequest) (mcp.JSONRPCMessage, error) {
 			o := mwObs{ReqID: fmt.Sprint(req.ID), Tok: tokOf(ctx)}
 			o.Tok2, _ = ctx.Value(k2{}).(string)
+			o.Chain, _ = ctx.Value(k3{}).(string)
 			if s, ok := mcp.GetSessionFromContext(ctx); ok && s != nil {
 				o.Sess = s.GetID()
 			}
@@ -128,7 +197,16 @@ func build(kind kit.Kind, K int, mw *[]mwObs, mwMu *sync.Mutex) *kit.Instance {
 	if kind == kit.LSSE {
 		in = kit.Start(kind, kit.Opts{SSEOpts: []mcp.SSEOption{mcp.WithSSEContextFunc(both), mcp.WithSSEToolListFilter(toolFilter), mcp.WithSSEPromptListFilter(promptFilter), mcp.WithSSEResourceListFilter(resFilter), mcp.WithSSEMiddleware(middleware)}})
 	} else {
-		in = kit.Start(kind, kit.Opts{ServerOpts: []mcp.ServerOption{mcp.WithHTTPContextFunc(ctxFn1), mcp.WithHTTPContextFunc(ctxFn2), mcp.WithToolListFilter(toolFilter), mcp.WithPromptListFilter(promptFilter), mcp.WithResourceListFilter(resFilter), mcp.WithMiddleware(middleware)}})
+		// F context functions, registered one option call at a time (the way an application composes them)
+		so := []mcp.ServerOption{mcp.WithHTTPContextFunc(ctxFn1B)}
+		if F >= 2 {
+			so = append(so, mcp.WithHTTPContextFunc(ctxFn2))
+		}
+		for i := 3; i <= F; i++ {
+			so = append(so, mcp.WithHTTPContextFunc(extraFn(i)))
+		}
+		so = append(so, mcp.WithToolListFilter(toolFilter), mcp.WithPromptListFilter(promptFilter), mcp.WithResourceListFilter(resFilter), mcp.WithMiddleware(middleware))
+		in = kit.Start(kind, kit.Opts{ServerOpts: so})
 	}
 	names := []string{"all", "even", "odd"}
 	for k := 0; k < K; k++ {
@@ -160,6 +238,7 @@ func build(kind kit.Kind, K int, mw *[]mwObs, mwMu *sync.Mutex) *kit.Instance {
 		// re-read everything AFTER the wait: other requests have been inside meanwhile
 		e := echo{Tok1: tokOf(ctx)}
 		e.Tok2, _ = ctx.Value(k2{}).(string)
+		e.Chain, _ = ctx.Value(k3{}).(string)
 		if s, ok := mcp.GetSessionFromContext(ctx); ok && s != nil {
 			e.Sess = s.GetID()
 		}
@@ -208,10 +287,14 @@ func answerFrame(frames []string) string {
 	return ""
 }
 
-func scenario(r *vh.Run, kind kit.Kind, K, rounds int) {
+func scenario(r *vh.Run, kind kit.Kind, K, rounds int, Fopt ...int) {
+	F := 2
+	if len(Fopt) > 0 && kind != kit.LSSE {
+		F = Fopt[0]
+	}
 	var mw []mwObs
 	var mwMu sync.Mutex
-	in := build(kind, K, &mw, &mwMu)
+	in := build(kind, K, F, &mw, &mwMu)
 	defer in.Close()
 	ctx := context.Background()
 	srvPtr := fmt.Sprintf("%p", in.Srv())
@@ -238,7 +321,7 @@ func scenario(r *vh.Run, kind kit.Kind, K, rounds int) {
 	}()
 	maxInHandler.Store(0)
 	for round := 0; round < rounds; round++ {
-		gate := fmt.Sprintf("g-%s-%d-%d", kind, K, round)
+		gate := fmt.Sprintf("g-%s-%d-%d-%d", kind, K, F, round)
 		var wg sync.WaitGroup
 		for _, cl := range clients {
 			wg.Add(1)
@@ -251,7 +334,7 @@ func scenario(r *vh.Run, kind kit.Kind, K, rounds int) {
 				cwg.Add(1)
 				go func() {
 					defer cwg.Done()
-					ex := cl.c.Post(ctx, []byte(fmt.Sprintf(`{"jsonrpc":"2.0","id":%s,"method":"tools/call","params":{"name":"ctxecho","arguments":{"gate":"%s","nonce":"%s"}}}`, id, gate, nonce)), kit.PostOpts{WantID: id, Wait: 30 * time.Second})
+					ex := cl.c.Post(ctx, []byte(fmt.Sprintf(`{"jsonrpc":"2.0","id":%s,"method":"tools/call","params":{"name":"ctxecho","arguments":{"gate":"%s","nonce":"%s"}}}`, id, gate, nonce)), kit.PostOpts{WantID: id, Wait: 30 * time.Second, Headers: map[string]string{"X-Verif-Barrier": fmt.Sprintf("%s/%d", gate, K)}})
 					r.Eval(1)
 					f := answerFrame(ex.Frames)
 					var m struct {
@@ -270,8 +353,10 @@ func scenario(r *vh.Run, kind kit.Kind, K, rounds int) {
 					switch {
 					case e.Tok1 != cl.tok:
 						r.Violation(fmt.Sprintf("C13|%s|handler|context-value-of-other-request", kind), fmt.Sprintf("%s: handler of %s saw the context value of %q", kind, cl.tok, e.Tok1), wit)
-					case e.Tok2 != "f2("+cl.tok+")|hdr="+cl.tok:
+					case e.Tok2 != wantTok2(cl.tok, F):
 						r.Violation(fmt.Sprintf("C13|%s|handler|context-functions-order", kind), fmt.Sprintf("%s: second context function did not see the first one's value of this request: %q", kind, e.Tok2), wit)
+					case e.Chain != wantChain(cl.tok, F):
+						r.Violation(fmt.Sprintf("C13|%s|handler|context-functions-chain", kind), fmt.Sprintf("%s: with %d context functions the handler of %s saw the chain %q, registration order on this request gives %q", kind, F, cl.tok, e.Chain, wantChain(cl.tok, F)), wit)
 					case kind != kit.SLJSON && kind != kit.SLSSE && e.Sess != cl.c.SessionID:
 						r.Violation(fmt.Sprintf("C13|%s|handler|session-of-other-request", kind), fmt.Sprintf("%s: handler of session %s saw session %q", kind, cl.c.SessionID, e.Sess), wit)
 					case e.CSess != e.Sess:
@@ -279,7 +364,7 @@ func scenario(r *vh.Run, kind kit.Kind, K, rounds int) {
 					case !e.HasSrv || e.Server != srvPtr:
 						r.Violation(fmt.Sprintf("C13|%s|handler|server-handle", kind), fmt.Sprintf("%s: tool handler's server handle is %q, the server is %s", kind, e.Server, srvPtr), wit)
 					default:
-						r.Distinct(fmt.Sprintf("%s|handler|K=%d", kind, K))
+						r.Distinct(fmt.Sprintf("%s|handler|K=%d|ctxfuncs=%d", kind, K, F))
 					}
 					// the notification sender belongs to this request: its notification must be on this POST stream only
 					if kind == kit.SSSE || kind == kit.SLSSE {
@@ -349,8 +434,8 @@ func scenario(r *vh.Run, kind kit.Kind, K, rounds int) {
 		r.Eval(1)
 		checked++
 		switch {
-		case o.Tok != tok || o.Tok2 != "f2("+tok+")|hdr="+tok:
-			r.Violation(fmt.Sprintf("C13|%s|middleware|context-value-of-other-request", kind), fmt.Sprintf("%s: middleware processing request %s saw context values %q / %q", kind, o.ReqID, o.Tok, o.Tok2), o)
+		case o.Tok != tok || o.Tok2 != wantTok2(tok, F) || o.Chain != wantChain(tok, F):
+			r.Violation(fmt.Sprintf("C13|%s|middleware|context-value-of-other-request", kind), fmt.Sprintf("%s: middleware processing request %s saw context values %q / %q / %q", kind, o.ReqID, o.Tok, o.Tok2, o.Chain), o)
 		case kind != kit.SLJSON && kind != kit.SLSSE && o.Sess != sessOf[tok]:
 			r.Violation(fmt.Sprintf("C13|%s|middleware|session-of-other-request", kind), fmt.Sprintf("%s: middleware processing request %s saw session %q, the requester's is %q", kind, o.ReqID, o.Sess, sessOf[tok]), o)
 		}
@@ -359,7 +444,8 @@ func scenario(r *vh.Run, kind kit.Kind, K, rounds int) {
 		r.Distinct(fmt.Sprintf("%s|middleware|K=%d", kind, K))
 	}
 	r.Count("middleware_observations", int64(checked))
-	r.Sample(map[string]interface{}{"kind": kind, "clients": K, "rounds": rounds, "max_handlers_overlapping": maxInHandler.Load()})
+	r.Max("context_function_barriers_met", barrierMet.Load())
+	r.Sample(map[string]interface{}{"kind": kind, "clients": K, "context_functions": F, "rounds": rounds, "max_handlers_overlapping": maxInHandler.Load()})
 }
 
 func main() {
@@ -371,6 +457,12 @@ func main() {
 			scenario(r, kind, K, r.Pick(25, 1000))
 		}
 	}
-	r.Finish("K = 2 / 8 / 16-32 raw clients, each with a unique header token, against Streamable (stateful / stateless, JSON / SSE answers) and legacy SSE servers configured with two HTTP context functions (the second derives its value from the first's), a tool / prompt / resource list filter keyed on the token, and a middleware; per round every client issues one gated tool call (all K handlers are inside at the same time, then released together) and three list requests; each echo (context values, session via both accessors, server handle, notification sender by effect) and each list must be the requester's own; middleware observations are joined to requests through the request id. Distinct = (server kind, stage, K).",
+	// the number of registered context functions is a configuration dimension of its own
+	for _, kind := range []kit.Kind{kit.SJSON, kit.SSSE, kit.SLJSON, kit.SLSSE} {
+		for _, F := range []int{1, 3, 4, 5, 6, 7, 9, 12} {
+			scenario(r, kind, r.Pick(4, 8), r.Pick(8, 120), F)
+		}
+	}
+	r.Finish("K = 2 / 8 / 16-32 raw clients, each with a unique header token, against Streamable (stateful / stateless, JSON / SSE answers) and legacy SSE servers configured with two HTTP context functions (the second derives its value from the first's; a second sweep registers 1, 3-7, 9 and 12 of them, each appending to a chain value, and lets the K requests of a round meet inside the first context function so that the context-function stages overlap), a tool / prompt / resource list filter keyed on the token, and a middleware; per round every client issues one gated tool call (all K handlers are inside at the same time, then released together) and three list requests; each echo (context values, session via both accessors, server handle, notification sender by effect) and each list must be the requester's own; middleware observations are joined to requests through the request id. Distinct = (server kind, stage, K).",
 		[]string{"presence is required only where documented: context-function values everywhere, the session in handlers, server handle and sender in tool handlers", "stateless sessions are per-request temporaries, so only token isolation and accessor agreement are checked there"})
 }
